@@ -45,10 +45,22 @@ type c08Skip struct {
 }
 type c08Cont struct{ Pad, Trail, Ind, Text string }
 type c08LDef struct {
-	Gap                        []c08Skip
-	Ind, Key, Ws1, Ws2, First  string
-	More                       []c08Cont
-	Trail                      string
+	Gap                       []c08Skip
+	Ind, Key, Ws1, Ws2, First string
+	More                      []c08Cont
+	Trail                     string
+	HasCmt, CmtSemi           bool // an in-line remark behind the definition
+	CmtText                   string
+}
+
+func c08CmtRaw(d *c08LDef) string {
+	if !d.HasCmt {
+		return ""
+	}
+	if d.CmtSemi {
+		return ";" + d.CmtText
+	}
+	return "#" + d.CmtText
 }
 type c08LSec struct {
 	Gap              []c08Skip
@@ -110,7 +122,7 @@ func c08Lines(ld *c08LDoc) ([]string, []c08Slot) {
 				cur = ct.Ind + ct.Text
 			}
 			slots = append(slots, c08Slot{&d.Trail, len(lines)})
-			lines = append(lines, cur+d.Trail)
+			lines = append(lines, cur+d.Trail+c08CmtRaw(d))
 		}
 	}
 	skips(ld.Tail)
@@ -150,7 +162,11 @@ func c08LDocSx(ld *c08LDoc) string {
 			for k, ct := range d.More {
 				more[k] = QL([]string{ct.Pad, ct.Trail, ct.Ind, ct.Text})
 			}
-			defs[j] = L(c08SkipsSx(d.Gap), Q(d.Ind), Q(d.Key), Q(d.Ws1), Q(d.Ws2), Q(d.First), L(more...), Q(d.Trail))
+			cmt := L()
+			if d.HasCmt {
+				cmt = L(B(d.CmtSemi), Q(d.CmtText))
+			}
+			defs[j] = L(c08SkipsSx(d.Gap), Q(d.Ind), Q(d.Key), Q(d.Ws1), Q(d.Ws2), Q(d.First), L(more...), Q(d.Trail), cmt)
 		}
 		secs[i] = L(c08SkipsSx(s.Gap), Q(s.Ind), Q(s.Name), Q(s.Trail), L(defs...))
 	}
@@ -305,7 +321,7 @@ type c08LayoutOpt struct {
 	longLast  bool // put the long line last and leave out the final newline
 	finalNL   bool
 	plainOnly bool // canonical: no pads at all
-	inlineCmt bool // in-line comments behind the last physical line of definitions (outside the theorem's family)
+	inlineCmt bool // in-line ';' / '#' remarks behind definitions
 }
 
 var c08BlankAlphabet = []string{" ", " ", " ", " ", "\t", "\t", "\v", "\f", "\r"}
@@ -418,11 +434,11 @@ func (g *c08Gen) layout(doc c08Doc, o c08LayoutOpt) *c08LDoc {
 			for di := range ld.Secs[si].Defs {
 				if g.c.Rng.Intn(2) == 0 {
 					d := &ld.Secs[si].Defs[di]
-					txt := g.commentText()
-					if t := c08Trim(txt); strings.HasSuffix(t, "\\") || strings.HasSuffix(t, "]") {
-						txt += "."
+					d.HasCmt, d.CmtSemi, d.CmtText = true, g.c.Rng.Intn(2) == 0, g.commentText()
+					// guard of the theorem: the trimmed line ends neither in '\\' (continuation) nor in ']' (header shape)
+					if t := c08Trim(d.CmtText); strings.HasSuffix(t, "\\") || strings.HasSuffix(t, "]") {
+						d.CmtText += "."
 					}
-					d.Trail += g.blanks(3) + g.pick([]string{"#", ";"}) + txt
 				}
 			}
 		}
@@ -439,7 +455,11 @@ func (g *c08Gen) layout(doc c08Doc, o c08LayoutOpt) *c08LDoc {
 				for ci := range d.More {
 					d.More[ci].Trail += "\r"
 				}
-				d.Trail += "\r"
+				if d.HasCmt {
+					d.CmtText += "\r"
+				} else {
+					d.Trail += "\r"
+				}
 			}
 		}
 		c08CrSkips(ld.Tail)
@@ -517,7 +537,7 @@ func (g *c08Gen) randomOpt(i int) c08LayoutOpt {
 		o.pads = []int{0, 2, 6, 40}[r.Intn(4)]
 		o.shuffle = r.Intn(2) == 0
 		o.finalNL = r.Intn(3) != 0
-		o.inlineCmt = r.Intn(5) == 0
+		o.inlineCmt = r.Intn(4) == 0
 		if r.Intn(g.longEvery) == 0 {
 			o.long = c08LongTargets[r.Intn(len(c08LongTargets))]
 			o.longLast = r.Intn(4) == 0
@@ -981,7 +1001,7 @@ var c08HostileLines = []string{
 	"[request_definition]", "[policy_definition]", "[role_definition]", "[policy_effect]", "[matchers]", "[]", "[", "]", "[x] # c", "[a]]", "[[b]",
 	"r = sub, obj, act", "r2 = a", "r3 = b", "p = sub, obj, act", "p2= x,y", "g = _, _", "g2 = _, _, (_, _)", "e = some(where (p.eft == allow))",
 	"m = r.sub == p.sub", "m = g(r.sub, p.sub) && \\", "  r.obj == p.obj \\", " && r.act in [a, b]", "[p.obj]", "m2 = eval(p.x)", "= v", "k =", "k", "\\", " \\ ",
-	"# c", "; c", "# c \\", "", "   ", "\t", "m = a # b \\", "m = a ; b", "m == b", "r = ", "e = x\\", "g = (", "g = )(", "g = _,(_,_,_,_)", "g = (,,,)", "g = _, (_), (_, _)", "g = ((_,_),_)",
+	"# c", "; c", "# c \\", "; c \\", "  ; x\\", "", "   ", "\t", "m = a # b \\", "m = a ; b", "m == b", "r = ", "e = x\\", "g = (", "g = )(", "g = _,(_,_,_,_)", "g = (,,,)", "g = _, (_), (_, _)", "g = ((_,_),_)",
 	"r = a,,b,", "p = ,", "m = in", "m = r.[x] in y", "m = domain[1]", "\r", "a=b\r", "\r[matchers]\r", "m = x\xc2", "\xa0", "[request_definition]\r", "r = sub, obj\r",
 }
 
@@ -1070,7 +1090,7 @@ func init() {
 		c.Rule = fmt.Sprintf("documents = every %s/**/*.conf (read at run time, turned into sections/keys/values by a small reference reader) + %d generated documents "+
 			"(standard and foreign sections, r/p/g/e/m values from a token grammar incl. '=' '[' ']' '\\' quotes, numbering gaps, duplicate keys, empty values, duplicate sections); "+
 			"each rendered under %d layouts of the theorem's family (indentation, blanks round '=', trailing blanks incl. \\t \\v \\f \\r, blank/';'/'#' lines between definitions, "+
-			"backslash continuation at random subsets of the single blanks up to every one, CRLF, section order, with/without final newline; one random layout in five also puts in-line ';'/'#' remarks behind definitions (text-only cases); layouts 1-4 and 7 and one in "+fmt.Sprint(g.longEvery)+" of the others pad one "+
+			"backslash continuation at random subsets of the single blanks up to every one, CRLF, section order, with/without final newline; one random layout in four also puts in-line ';'/'#' remarks behind definitions; layouts 1-4 and 7 and one in "+fmt.Sprint(g.longEvery)+" of the others pad one "+
 			"physical line to exactly 4096 / just over 4096 / over 8192 bytes, also as last line without terminator) and %d loose layouts (blank runs inside r/p/g/m values stretched, also past 4096 bytes, "+
 			"blanks inserted at commas and && ||); plus %d hostile texts (random bytes, line soups, mutated examples). Every text goes through the real NewConfigFromText / NewModelFromString and through the extracted Coq model; "+
 			"non-trivial = a layout case that differs from the plain rendering (id counted once)", c08Examples, nGen, nExact, nLoose, nHostile)
@@ -1143,15 +1163,12 @@ func init() {
 			baseDec := ""
 			run := func(id string, ld *c08LDoc, loose bool, o c08LayoutOpt) {
 				text := c08Render(ld)
+				c.Case(id, "L "+Q(text)+" "+psx+" "+c08LDocSx(ld))
+				c.Obs(id, "wf", "1")
+				c.Obs(id, "render", "same")
+				c.Obs(id, "theorem", "1")
 				if o.inlineCmt {
-					// not a layout of the theorem's family (the trailing slot is not blank): text only
-					c.Case(id, "T "+Q(text)+" "+psx)
-					c.Count("with-inline-comments")
-				} else {
-					c.Case(id, "L "+Q(text)+" "+psx+" "+c08LDocSx(ld))
-					c.Obs(id, "wf", "1")
-					c.Obs(id, "render", "same")
-					c.Obs(id, "theorem", "1")
+					c.Count("with-inline-remarks")
 				}
 				res, _ := c08Observe(c, id, text, probes, true)
 				ml := c08MaxLine(text)
@@ -1276,6 +1293,12 @@ func c08Probe(c *Ctx) {
 			d1, d2 := c08Decisions(m1, pol, reqs), c08Decisions(m2, pol, reqs)
 			c.Notes = append(c.Notes, fmt.Sprintf("W1 observation: matcher spelled keyMatch(r.dom,p.dom) instead of %s: decisions differ=%v (enforcer.go initRmMap looks for the exact text); the loose stream keeps this text intact", c08Marker, d1 != d2))
 		}
+	}
+	// W2 (observation, content not layout): definitions the loader never asks for are ignored without error
+	if m, err := model.NewModelFromString(base + "m = r.sub == p.sub\nm3 = r.obj == p.obj\nmm = x\n[policy_definition]\np3 = a, b\n"); err == nil {
+		_, hasM3 := m["m"]["m3"]
+		_, hasP3 := m["p"]["p3"]
+		c.Notes = append(c.Notes, fmt.Sprintf("W2 observation: m3 without m2 / p3 without p2 / unknown key mm load without error and are ignored: m3 loaded=%v p3 loaded=%v (loadSection stops at the first missing number)", hasM3, hasP3))
 	}
 	// F35 (interpretation guard, not a finding): a blank or comment line inside a continued definition ends it
 	full2 := "g(r_sub, p_sub) && r_obj == p_obj && r_act == p_act"
